@@ -95,3 +95,165 @@ def rename_file(root, rel):
     with open(p, "w", encoding="utf-8") as f:
         f.write(out)
     return n
+
+
+# ------------------------------------------------------------------------------------------------------------------
+# whole-tree syntactic rewrites that cannot change behaviour (applied through the syntax tree and re-emitted)
+
+def _simple(e):
+    """an operand without side effects and without calls: names, attribute chains, constants, subscripts of those, unary minus"""
+    if isinstance(e, (ast.Name, ast.Constant)):
+        return True
+    if isinstance(e, ast.Attribute):
+        return _simple(e.value)
+    if isinstance(e, ast.Subscript):
+        return _simple(e.value) and _simple(e.slice)
+    if isinstance(e, ast.UnaryOp) and isinstance(e.op, ast.USub):
+        return _simple(e.operand)
+    return False
+
+
+class _SwapElse(ast.NodeTransformer):
+    """`if c: A else: B`  ->  `if not c: B else: A`"""
+    n = 0
+
+    def visit_If(self, node):
+        self.generic_visit(node)
+        if node.orelse and not (isinstance(node.test, ast.Compare) and isinstance(node.test.left, ast.Name) and node.test.left.id == "__name__"):
+            self.n += 1
+            return ast.If(test=ast.UnaryOp(op=ast.Not(), operand=node.test), body=node.orelse, orelse=node.body)
+        return node
+
+
+class _Range0(ast.NodeTransformer):
+    """range(0, n) -> range(n)"""
+    n = 0
+
+    def visit_Call(self, node):
+        self.generic_visit(node)
+        if isinstance(node.func, ast.Name) and node.func.id == "range" and len(node.args) == 2 and not node.keywords \
+                and isinstance(node.args[0], ast.Constant) and node.args[0].value == 0 and not isinstance(node.args[0].value, bool):
+            self.n += 1
+            node.args = [node.args[1]]
+        return node
+
+
+class _FlipCompare(ast.NodeTransformer):
+    """a < b -> b > a  (one comparison, side-effect-free operands)"""
+    n = 0
+    FLIP = {ast.Lt: ast.Gt, ast.LtE: ast.GtE, ast.Gt: ast.Lt, ast.GtE: ast.LtE, ast.Eq: ast.Eq, ast.NotEq: ast.NotEq}
+
+    def visit_Compare(self, node):
+        self.generic_visit(node)
+        if len(node.ops) == 1 and type(node.ops[0]) in self.FLIP and _simple(node.left) and _simple(node.comparators[0]):
+            self.n += 1
+            return ast.Compare(left=node.comparators[0], ops=[self.FLIP[type(node.ops[0])]()], comparators=[node.left])
+        return node
+
+
+class _Keywordise(ast.NodeTransformer):
+    """positional arguments of calls whose callee is known (self.<method>, <Class>.<function>, a module-level function of the same
+    module, <Class>(...) constructors, <anything>.<method with a repository-wide unique name>) become keyword arguments, same order"""
+
+    def __init__(self, classes, modfuncs):
+        from . import canon
+        self.canon = canon
+        self.classes, self.modfuncs = classes, modfuncs
+        self.by_name = canon.unique_methods(classes)
+        self.cls = None
+        self.n = 0
+
+    def visit_ClassDef(self, node):
+        prev, self.cls = self.cls, node.name
+        self.generic_visit(node)
+        self.cls = prev
+        return node
+
+    def visit_Call(self, node):
+        self.generic_visit(node)
+        if not node.args or any(isinstance(a, ast.Starred) for a in node.args) or any(k.arg is None for k in node.keywords):
+            return node
+        params = self.canon.constructor_params(node, self.classes)
+        if params is None:
+            params = self.canon.certain_callee_params(node, self.cls, self.classes, self.modfuncs, self.by_name)
+        if params is None or len(node.args) > len(params):
+            return node
+        names = params[:len(node.args)]
+        if {k.arg for k in node.keywords} & set(names):
+            return node
+        node.keywords = [ast.keyword(arg=p, value=a) for p, a in zip(names, node.args)] + node.keywords
+        node.args = []
+        self.n += 1
+        return node
+
+
+class _Positionalise(ast.NodeTransformer):
+    """the reverse: keyword arguments that fill the callee's parameters from the left without gaps become positional"""
+
+    def __init__(self, classes, modfuncs):
+        from . import canon
+        self.canon = canon
+        self.classes, self.modfuncs = classes, modfuncs
+        self.by_name = canon.unique_methods(classes)
+        self.cls = None
+        self.n = 0
+
+    def visit_ClassDef(self, node):
+        prev, self.cls = self.cls, node.name
+        self.generic_visit(node)
+        self.cls = prev
+        return node
+
+    def visit_Call(self, node):
+        self.generic_visit(node)
+        if not node.keywords or any(isinstance(a, ast.Starred) for a in node.args) or any(k.arg is None for k in node.keywords):
+            return node
+        params = self.canon.constructor_params(node, self.classes)
+        if params is None:
+            params = self.canon.certain_callee_params(node, self.cls, self.classes, self.modfuncs, self.by_name)
+        if params is None:
+            return node
+        kw = {k.arg: k.value for k in node.keywords}
+        n = len(node.args) + len(kw)
+        # only when the keywords are already written in parameter order (evaluation order of the arguments stays the same)
+        if len(kw) == len(node.keywords) and n <= len(params) and [k.arg for k in node.keywords] == params[len(node.args):n]:
+            node.args = list(node.args) + [k.value for k in node.keywords]
+            node.keywords = []
+            self.n += 1
+        return node
+
+
+def rewrite_tree(root, kind):
+    """apply one whole-tree rewrite (swap-else, range0, flip-compare, keywordise) to every source file; -> number of rewritten sites"""
+    files = source_files(root)
+    mods = {}
+    for p in files:
+        try:
+            mods[p] = ast.parse(open(p, encoding="utf-8").read())
+        except SyntaxError:
+            continue
+    from .canon import class_table
+    classes = class_table(list(mods.values()))
+    total = 0
+    for p, mod in mods.items():
+        if kind == "swap-else":
+            t = _SwapElse()
+        elif kind == "range0":
+            t = _Range0()
+        elif kind == "flip-compare":
+            t = _FlipCompare()
+        elif kind in ("keywordise", "positionalise"):
+            names = [n.name for n in mod.body if isinstance(n, ast.FunctionDef)]
+            mf = {n.name: n for n in mod.body if isinstance(n, ast.FunctionDef) and names.count(n.name) == 1}
+            t = _Keywordise(classes, mf) if kind == "keywordise" else _Positionalise(classes, mf)
+        else:
+            raise ValueError(kind)
+        new = t.visit(mod)
+        if t.n:
+            ast.fix_missing_locations(new)
+            out = ast.unparse(new) + "\n"
+            compile(out, p, "exec")
+            with open(p, "w", encoding="utf-8") as f:
+                f.write(out)
+            total += t.n
+    return total
